@@ -205,6 +205,9 @@ func init() {
 			o.constString(d, c[0], c[1])
 		}
 
+		o.constString("signers/vsix", "nsDigSig", "ns_digsig")
+		o.constString("signers/vsix", "tsFormatXML", "ts_format_xml")
+
 		// ---- ECDSA r||s packing
 		const x = "lib/x509tools"
 		o.exprOfAssign(funcSpec{dir: x, recv: "EcdsaSignature", name: "Pack", coqName: "pack_nbytes", params: "(nbits : Z)", retType: "Z",
